@@ -79,8 +79,19 @@ def main(tier_: str) -> int:
             vecs.append(('pad', tmpl, 'odvod', ''))
         for q in ('', 'timeline=1'):
             vecs.append(('pad', 'hand_made.mpd', 'vod', q))
+        # media stored as styp + moof + mdat per fragment, without segment indexes (spec/Indexer.tla, check X03)
+        for tmpl in OD_TEMPLATES:
+            vecs.append(('nsx', tmpl, 'odvod', ''))
+        vecs.append(('nsx', 'hand_made.mpd', 'vod', ''))
         with DashApp(d / 'app', fixtures=('bbb', 'tears')) as da:
             from harness.core import REPO
+            from harness.synth import strip_sidx
+            nsx = []
+            for stem in ('bbb_v7', 'bbb_a1'):
+                nf = d / f'nsx_{stem[4:]}.mp4'
+                nf.write_bytes(strip_sidx((REPO / 'tests' / 'fixtures' / 'bbb' / f'{stem}.mp4').read_bytes()))
+                nsx.append((nf, f'nsx_{stem[4:]}'))
+            da.add_fixture('bbb', directory='nsx', title='stored without segment indexes', only=set(), extra=nsx)
             da.add_fixture('bbb', directory='vtt', title='stored without tfdt', only={'bbb_v7', 'bbb_a1'},
                            extra=[(REPO / 'tests' / 'fixtures' / 'webvtt.mp4', 'vtt_t2')])
             da.add_fixture('bbb', directory='aref', title='audio is the timing reference', only={'bbb_v7', 'bbb_a1'}, ref_stem='bbb_a1')
@@ -111,7 +122,8 @@ def main(tier_: str) -> int:
                     'past_url': lo.get('past_url'),
                     'shorter_than_ref_by': (lo['R'] - sum(lo['durs'])) if 'R' in lo and 'durs' in lo else None,
                     # the last stored fragment is shorter than three quarters of the first one
-                    'last_fragment_short': 1 if lo.get('durs') and 4 * lo['durs'][-1] < 3 * lo['durs'][0] else 0}
+                    'last_fragment_short': 1 if lo.get('durs') and 4 * lo['durs'][-1] < 3 * lo['durs'][0] else 0,
+                    'gap_kinds': lo.get('gap_kinds', []), 'gap_bytes': lo.get('gap_bytes', 0), 'gap_box_bytes': lo.get('gap_box_bytes', 0)}
             out.add(Violation('C06', v['clause'], case))
         n200 = sum(1 for x in walks for s in x.get('serve', []) if s['status'] == 200) + \
             sum(1 for x in walks for s in x.get('fetched', []) if s['status'] == 206)
